@@ -7,7 +7,8 @@
    (ThickSegment::is_skeleton) was DRAWN along its right edge but BOXED by its left edge, and a drawn pixel could lie
    outside the box (finding K02_thick_skeleton_bbox, FINDINGS-C02-join.md; found by the search p_thick_bbox).  The model
    follows the repaired code; the formerly failing input is part of the non-vacuity example below. *)
-From EG Require Import Base.Prelude Model.Geometry Model.Line Model.Thickline Model.Join Proofs.Join.
+From EG Require Import Base.Prelude Model.Geometry Model.Style Model.Line Model.Thickline Model.Join Model.JoinTri.
+From EG Require Import Proofs.Join Proofs.JoinTri Proofs.JoinHull Proofs.JoinDraw Proofs.JoinTriDraw.
 Set Default Timeout 60.
 
 (* every corner of every segment that is not a skeleton, and the drawn (right) edge of every skeleton, lies in the box *)
@@ -30,6 +31,35 @@ Proof.
   intros pts w segs bb seg p T B I C. unfold poly_thick_bounding_box in B. rewrite T in B.
   injection B as <-. exact (segments_bounding_box_contains segs seg p I C).
 Qed.
+
+(* pixel level: every point of every scanline of a thick polyline - i.e. every item of pixels() and every point of every
+   fill_solid rectangle of draw(), before the translate field is added to pixels and box alike - lies in the styled
+   bounding box.  Hypotheses: no segment is taken for a skeleton (existsb is_skeleton segs = false; about 1 in 3000 random
+   width-2 polylines has one: then the box covers only the drawn edge of that segment and the proof would need the filler
+   line of the neighbouring join to stay inside it - searched by p_thick_bbox, no counterexample); corners within +-2^29. *)
+Theorem C02_join_polyline_drawn_in_bbox_partial : forall pts w segs ls s p,
+  thick_segment_iter pts w = Some segs -> existsb is_skeleton segs = false -> Forall seg_ok segs ->
+  poly_scanlines pts w = Some ls -> In s ls -> In p (sl_points s) ->
+  contains (segments_bounding_box segs) p = true.
+Proof. exact poly_drawn_in_bbox. Qed.
+
+(* stroked triangles, Center / Outside alignment, width >= 2 (the cases in which the styled bounding box is the box of the
+   thick segments): every point of every STROKE line of every row - the stroke pixels of pixels() and draw() - lies in the
+   styled bounding box.  Not covered: the fill lines (rows without stroke intersections take Triangle::scanline_intersection,
+   whose relation to the box of the stroke is not proved), Inside alignment and widths < 2 (box = Triangle::bounding_box),
+   skeleton segments. *)
+Theorem C02_join_triangle_stroke_in_bbox_partial : forall t w al hf segs rs row s p, al <> Inside -> 2 <= w ->
+  tri_segs (jt_sorted_clockwise t) w (so_of_alignment al) = Some segs ->
+  existsb is_skeleton segs = false -> Forall seg_ok segs ->
+  jt_rows t w al hf = Some rs -> In row rs -> In (s, PStroke) row -> In p (sl_points s) ->
+  contains (segments_bounding_box segs) p = true.
+Proof. exact tri_stroke_in_bbox. Qed.
+
+(* the geometric core: the scanline of a thick segment stays inside the x hull of the corners of its two joins *)
+Theorem C02_join_thick_segment_scanline_in_hull : forall lo hi t y,
+  join_xin lo hi (ts_start_join t) -> join_xin lo hi (ts_end_join t) ->
+  xin lo hi (ts_intersection t y) /\ sl_y (ts_intersection t y) = y.
+Proof. exact ts_intersection_xin. Qed.
 
 (* non-vacuity: an ordinary polyline; and the input of the repaired finding, Polyline [(-7,-7),(-9,-10),(-3,-21)] with
    stroke 2: its second segment is a skeleton, the pixel (-3,-21) is drawn, and the box now contains it *)
